@@ -601,6 +601,14 @@ def r124(ctx, rep):
         x_new = arg_for(ev.node, upd, "x_new", "bound")
         desc = f"minimize:{ev.line} update_interpolation(.., {norm(x_new)[:40]}, ..)"
         probs = []
+        if isinstance(x_new, ast.Name):
+            # a local holding the point: its only definition must lie between the evaluation
+            # and the update (same evaluation, same step, best index untouched)
+            dns = sorted(cfg.reaching_defs().get(nid, {}).get(x_new.id, ()))
+            if len(dns) == 1 and dns[0] != cfg.entry and isinstance(cfg.nodes[dns[0]].ast, ast.Assign) and len(cfg.nodes[dns[0]].ast.targets) == 1 and isinstance(cfg.nodes[dns[0]].ast.targets[0], ast.Name):
+                dst = states.get(dns[0], frozenset())
+                if dst and cfg.dominates(dns[0], nid) and all(e is not None and s == se and not d for (s, e, se, d) in dst) and {e for (_, e, _, _) in dst} == {e for (_, e, _, _) in st}:
+                    x_new = cfg.nodes[dns[0]].ast.value
         if not (isinstance(x_new, ast.BinOp) and isinstance(x_new.op, ast.Add) and any(isinstance(s, ast.Name) and s.id == step_var for s in (x_new.left, x_new.right)) and any(mentions(s, "x_best") for s in (x_new.left, x_new.right))):
             probs.append(f"the stored point `{norm(x_new)}` is not x_best + {step_var}")
         for (s, e, se, d) in st:
